@@ -127,7 +127,8 @@ def gen_read_op(rng, shape, sd):
                        "sum", "mean", "all", "any", "prod", "cmp", "contiguous", "densify", "to_tensordict", "clone",
                        "gather", "masked_select", "where", "arith", "getkey", "select_keys", "apply", "len_iter", "flatten_keys",
                        "masked_fill", "to_dtype", "to_dict", "empty", "flat_unflat", "item_shape", "bool_ops", "items",
-                       "torch_fn", "apply_other", "inplace_keys", "named_apply"])
+                       "torch_fn", "apply_other", "inplace_keys", "named_apply",
+                       "where", "where", "masked_fill", "gather", "split", "expand", "repeat_interleave"])   # extra weight: ops with their own lazy code
     if kind == "unsqueeze":
         d = rand_dim(rng, r, 1)
         return kind, [d], lambda x: x.unsqueeze(d)
@@ -233,7 +234,10 @@ def gen_read_op(rng, shape, sd):
         return kind, [m.tolist()], lambda x: x.masked_select(m)
     if kind == "where":
         m = torch.tensor([rng.random() < 0.6 for _ in range(math.prod(shape))]).reshape(shape)
-        return kind, [m.tolist()], lambda x: x.where(m, x * 0 - 1)
+        # a varying `other` (a constant one would hide along which dim it is unbound)
+        which = rng.choice(["same_kind", "dense"])
+        return kind, [m.tolist(), which], (lambda x: x.where(m, x * 2 + 0.5)) if which == "same_kind" else (
+            lambda x: x.where(m, (x * 2 + 0.5).to_tensordict()))
     if kind == "arith":
         op = rng.choice(["add", "mul", "neg", "sub_self", "abs"])
         if op == "add":
@@ -391,10 +395,11 @@ def state_diff(ms, D, sd):
     return None
 
 
-def torch_expect_write(ms, sd, index, value):
+def torch_expect_write(ms, sd, index, value, E=None):
     """what torch itself does on every leaf of the dense stack (Ellipsis expanded against the batch
     rank); `value` is a tensordict (keywise) or a tensor (written to every leaf)"""
-    E = dense_of(ms, sd)
+    if E is None:
+        E = dense_of(ms, sd)
     rank = len(E.batch_size)
     if not isinstance(index, tuple):
         index = (index,)
@@ -448,7 +453,8 @@ def gen_mut_op(rng, shape, sd, bs, n):
     r = len(shape)
     kind = rng.choice(["setitem", "setitem", "setitem", "setitem_bcast", "set_at_", "set_key", "set_key_", "set_nested",
                        "update", "update_", "update_lazy", "update_at_", "fill_", "zero_", "masked_fill_", "apply_",
-                       "insert", "append", "del_", "rename_key_", "pop", "setitem_scalar_tensor", "iadd"])
+                       "insert", "append", "del_", "rename_key_", "pop", "setitem_scalar_tensor", "iadd",
+                       "popitem", "apply_other_"])
     if kind in ("setitem", "setitem_bcast", "update_at_", "set_at_", "setitem_scalar_tensor"):
         for _ in range(20):
             ix = G.gen_index(rng, shape)
@@ -526,6 +532,15 @@ def gen_mut_op(rng, shape, sd, bs, n):
         return kind, [], lambda x: x.rename_key_("a", "z")
     if kind == "pop":
         return kind, [], lambda x: x.pop("b")
+    if kind == "popitem":
+        # the popped key is implementation-defined: the value is put back under its own key
+        def f(x):
+            k, v = x.popitem()
+            x.set(k, v)          # whichever key it was: the content must be what it was before
+        return kind, [], f
+    if kind == "apply_other_":
+        other = value_for(rng, tuple(shape))
+        return kind, [], lambda x: x.apply_(lambda a, b: a.mul_(2).add_(b), other.clone())
     raise AssertionError(kind)
 
 
@@ -544,10 +559,17 @@ def mut_ops_stream(run, n_cases):
         ms0 = [m.clone() for m in ms]
         L = LazyStackedTensorDict(*ms, stack_dim=sd)
         D = dense_of(ms, sd)
+        locked = rng.random() < 0.25
+        if locked:
+            # a locked stack caches what it computes from its members: in-place writes must still be read back
+            L.lock_()
+            D.lock_()
+            for x in (L, D):
+                _ = x["a"], x["b"], x.get("n"), x["n", "c"], x.batch_size, list(x.keys(True, True)), x.names
         name, args, f = gen_mut_op(rng, shape, sd, bs, n)
-        case = {"bs": list(bs), "n": n, "sd": sd, "op": name, "args": args}
-        run.case(("mut", name, str(args), bs, n, sd))
-        run.count("mut.kind", name)
+        case = {"bs": list(bs), "n": n, "sd": sd, "op": name, "args": args, "locked": locked}
+        run.case(("mut", name, str(args), bs, n, sd, locked))
+        run.count("mut.kind", name + ("/locked" if locked else ""))
         if isinstance(f, tuple):
             _, kind, pos = f
             new = mk_members(bs, 1, base=4000)[0]
@@ -688,7 +710,8 @@ def member_write_stream(run, n_cases):
 
 
 # ----------------------------------------------------------------------------- views and copies
-VIEW_OPS = ["unsqueeze", "squeeze", "transpose", "permute", "unbind_piece", "split_piece", "chunk_piece", "basic_index"]
+VIEW_OPS = ["unsqueeze", "squeeze", "transpose", "permute", "unbind_piece", "split_piece", "chunk_piece", "basic_index",
+            "clone_shallow", "select_keys", "exclude_keys"]   # the last three share the leaf tensors with their input
 COPY_OPS = ["repeat", "repeat_interleave", "clone", "gather", "to_tensordict", "cat_two", "stack_two"]
 
 
@@ -745,6 +768,12 @@ def gen_alias_op(rng, shape, sd):
         return kind, [k, d], lambda x: x.repeat_interleave(k, dim=d)
     if kind in ("clone", "to_tensordict"):
         return kind, [], lambda x: getattr(x, kind)()
+    if kind == "clone_shallow":
+        return kind, [], lambda x: x.clone(False)
+    if kind == "select_keys":
+        return kind, [], lambda x: x.select("a", "n")
+    if kind == "exclude_keys":
+        return kind, [], lambda x: x.exclude("b")
     if kind == "gather":
         d = rand_dim(rng, r)
         dd = d % r
@@ -766,9 +795,10 @@ def gen_alias_op(rng, shape, sd):
     raise AssertionError(kind)
 
 
-def gen_result_write(rng, bs):
-    """an in-place write on a result of batch size `bs`, through the tensordict API only"""
-    how = rng.choice(["zero_", "fill_", "set_item", "apply_", "update_"])
+def gen_result_write(rng, bs, simple=False):
+    """an in-place write on a result of batch size `bs`, through the tensordict API only
+    (`simple`: the result lacks some keys, only key-agnostic writes)"""
+    how = rng.choice(["zero_", "fill_", "apply_"] if simple else ["zero_", "fill_", "set_item", "apply_", "update_"])
     if how == "set_item" and not (bs and bs[0] > 0):
         how = "zero_"
     if how == "zero_":
@@ -835,13 +865,14 @@ def alias_stream(run, n_cases):
             run.oracle_ok("alias_skipped:" + name)      # value disagreements are the read streams' business
             continue
         st = rng.getstate()
-        how, wargs, w = gen_result_write(rng, list(rd.batch_size))
+        simple = name in ("select_keys", "exclude_keys")
+        how, wargs, w = gen_result_write(rng, list(rd.batch_size), simple)
         case.update(write=how, wargs=wargs)
         try:
             with time_limit(180):
                 w(rd)
                 rng.setstate(st)
-                how2, _, w2 = gen_result_write(rng, list(rd.batch_size))
+                how2, _, w2 = gen_result_write(rng, list(rd.batch_size), simple)
                 assert how2 == how
                 w2(rl)
         except TimeoutError:
@@ -866,6 +897,150 @@ def alias_stream(run, n_cases):
                             f"lazy.{name}{tuple(args)} ({what} on the dense side) then {how}{tuple(wargs)}: {d}", f"alias:{name}")
         else:
             run.oracle_ok("alias:" + name)
+
+
+# ----------------------------------------------------------------------------- writes must copy their source
+# dense semantics: these writes COPY the source; a later in-place write to the source must not show
+COPYING_WRITES = ["update_clone", "update_", "setitem", "update_at_", "set_at_", "set_"]
+# these store the source tensors themselves (dense: aliasing); only the distribution is recorded
+SHARING_WRITES = ["update_noclone", "set"]
+
+
+def source_alias_stream(run, n_cases):
+    """history: write `source` into the stack (lazy and dense twin, each with its own source), then
+    write IN PLACE to the source, then compare.  After a copying write the destination must not
+    follow its source (the dense stack does not)."""
+    global NESTED_EXTRA
+    rng = run.rng
+    for _ in range(n_cases):
+        NESTED_EXTRA = False
+        rank = rng.choice([0, 1, 1, 2, 2])
+        bs = tuple(rng.choice([1, 2, 2, 3]) for _ in range(rank))
+        n = rng.randint(1, 4)
+        sd = rng.randint(0, rank)
+        shape = list(bs)
+        shape.insert(sd, n)
+        ms = mk_members(bs, n)
+        L = LazyStackedTensorDict(*ms, stack_dim=sd)
+        D = dense_of(ms, sd)
+        op = rng.choice(COPYING_WRITES + COPYING_WRITES + SHARING_WRITES)
+        # the region written and the batch size of the source
+        index = None
+        if op in ("setitem", "update_at_", "set_at_"):
+            for _try in range(20):
+                ix = [i for i in G.gen_index(rng, shape, adv="no") if i[0] != "ell"]
+                if no_dup_writes(ix):
+                    break
+            index = G.index_py(ix)
+            try:
+                sbs = tuple(torch.zeros(shape)[index].shape) if index else tuple(shape)
+            except Exception:  # noqa: BLE001
+                run.oracle_ok("source_alias_skipped")
+                continue
+        else:
+            ix = []
+            sbs = tuple(shape)
+        # the source, once per side (same values, separate storage)
+        kind = rng.choice(["lazy_same", "lazy_other", "dense", "dict"])
+        if op in ("set_at_", "set_", "set"):
+            kind = "tensor"
+        if kind == "dict" and op not in ("update_clone", "update_noclone", "update_"):
+            kind = "dense"
+        if kind.startswith("lazy") and (len(sbs) == 0 or 0 in sbs):
+            kind = "dense"
+
+        def mk_source():
+            v = value_for(rng_v, sbs)
+            if kind == "tensor":
+                return v["b"]
+            if kind == "dict":
+                return v.to_dict()
+            if kind == "dense":
+                return v
+            d = (sd if (kind == "lazy_same" and index is None) else rng_v.randrange(len(sbs))) % len(sbs)
+            if kind == "lazy_other" and index is None and len(sbs) > 1 and d == sd:
+                d = (d + 1) % len(sbs)
+            return LazyStackedTensorDict(*[t.clone() for t in v.unbind(d)], stack_dim=d)
+        st = rng.getstate()
+        rng_v = rng
+        srcL = mk_source()
+        rng.setstate(st)
+        srcD = mk_source()
+        case = {"bs": list(bs), "n": n, "sd": sd, "op": op, "source": kind, "ix": ix}
+        run.case(("source_alias", op, kind, str(ix), bs, n, sd))
+
+        def write(x, src):
+            if op == "update_clone":
+                x.update(src, clone=True)
+            elif op == "update_noclone":
+                x.update(src)
+            elif op == "update_":
+                x.update_(src)
+            elif op == "setitem":
+                x[index] = src
+            elif op == "update_at_":
+                x.update_at_(src, index)
+            elif op == "set_at_":
+                x.set_at_("b", src, index)
+            elif op == "set_":
+                x.set_("b", src)
+            else:
+                x.set("b", src)
+
+        def poke(src):
+            # in-place writes to the source, through every handle on it
+            if isinstance(src, torch.Tensor):
+                src.mul_(0).sub_(3)
+            elif isinstance(src, dict):
+                for v in src.values():
+                    if isinstance(v, dict):
+                        for w in v.values():
+                            w.mul_(0).sub_(3)
+                    else:
+                        v.mul_(0).sub_(3)
+            else:
+                src.zero_()
+                src.apply_(lambda t: t.sub_(3))
+                if isinstance(src, LazyStackedTensorDict):
+                    for m in src.tensordicts:
+                        m.get("a").add_(1)
+                        m.get("a").sub_(1)
+        try:
+            with time_limit(180):
+                write(L, srcL)
+                write(D, srcD)
+        except TimeoutError:
+            raise
+        except Exception:  # noqa: BLE001
+            run.oracle_ok("source_alias_raises:" + op)
+            continue
+        try:
+            before = G.same_td(L, D) or state_diff(ms, D, sd)
+        except Exception:  # noqa: BLE001
+            before = "unreadable"
+        if before:
+            run.oracle_ok("source_alias_skipped")      # a value disagreement: the mutating-op streams' business
+            continue
+        try:
+            poke(srcL)
+            poke(srcD)
+        except Exception:  # noqa: BLE001
+            run.oracle_ok("source_alias_raises:" + op)
+            continue
+        try:
+            d = G.same_td(L, D) or state_diff(L.tensordicts, D, sd)
+        except Exception as e:  # noqa: BLE001
+            d = None
+            run.count("source_alias.read_raises", type(e).__name__)
+        run.count("source_alias.kind", f"{op}/{kind}")
+        if d and op in COPYING_WRITES:
+            run.oracle_fail("source_alias:" + op, case,
+                            f"{op} with a {kind} source, then an in-place write to the SOURCE: the lazy stack follows its source, the dense stack does not: {d}",
+                            f"source_alias:{op}:{kind}")
+        else:
+            if d:
+                run.count("source_alias.sharing_differs", f"{op}/{kind}")
+            run.oracle_ok("source_alias:" + op)
 
 
 # ----------------------------------------------------------------------------- cat / stack (with and without out=)
@@ -1018,6 +1193,7 @@ def stack_of_stacks_stream(run, n_cases):
             else:
                 continue
             case["op"], case["args"] = name, args
+            D0 = D.clone()
             res = []
             for x in (L, D):
                 try:
@@ -1044,6 +1220,15 @@ def stack_of_stacks_stream(run, n_cases):
                         d = G.same_td(L, D)    # ... and the stack of stacks reads it
                     except Exception:  # noqa: BLE001
                         d = None
+                if d and hasattr(f, "write_index"):
+                    # is the dense TensorDict itself torch-conforming on this write (C03's subject)?
+                    try:
+                        E = torch_expect_write(None, None, f.write_index, f.write_value, E=D0)
+                        if G.same_td(D, E) is not None:
+                            run.count("stack_of_stacks.dense_not_torch(C03)", name)
+                            d = None
+                    except Exception:  # noqa: BLE001
+                        pass
                 if d:
                     run.oracle_fail("stack_of_stacks", case, f"after {name}{tuple(args)[:1]} through the stack of stacks: {d}", f"sos:mut:{name}")
                 else:
